@@ -126,6 +126,25 @@ Section Model.
   (* with the method's own odd-kernel check (kernel_2d.py: `if shape[0] % 2 == 0 or shape[1] % 2 == 0: raise`) *)
   Definition convolved_array_checked (m : mask) (native : list (list T)) (K : kernel) : res (list T) :=
     if (rows K mod 2 =? 0) || (cols K mod 2 =? 0) then Raise KernelException else Ok (convolved_array m native K).
+
+  (* ---------------- SimulatorImaging (noise-free path) ----------------
+     __init__: `psf = psf.normalized` when normalize_psf (Kernel2D(normalize=True): array / np.sum(array));
+     via_image_from with add_poisson_noise_to_data=False: image = psf.convolved_array_from(image) (the input is an
+     unmasked Array2D: slim order = all pixels row-major); image = image + background_sky_map; [the Poisson draw is
+     computed but not used]; `if subtract_background_sky: image = image - background_sky_map`. *)
+  Definition ksum (K : kernel) : T := sumT (concat K).
+  Definition normalized (K : kernel) : kernel := map (map (fun v => div O v (ksum K))) K.
+  Definition sim_psf (normalize : bool) (K : kernel) : kernel := if normalize then normalized K else K.
+  Definition allfalse {B} (g : list (list B)) : mask := map (map (fun _ => false)) g.
+  Definition simulate (sky : T) (subtract normalize : bool) (image : list (list T)) (K : kernel) : res (list T) :=
+    match convolved_array_checked (allfalse image) image (sim_psf normalize K) with
+    | Raise e => Raise e
+    | Ok conv => Ok (map (fun v => let w := add O v sky in if subtract then sub O w sky else w) conv)
+    end.
+  (* Imaging.apply_mask: Array2D(values=data.native, mask=m) -- the slim data of the masked dataset, read from the
+     simulated data (slim over the whole frame [g]) *)
+  Definition masked_data {B} (g : list (list B)) (data : list T) (m : mask) : list T :=
+    map (lookup (all_px g) data) (unmasked m).
 End Model.
 
 (* ---------------- correspondence cases (values are exact rationals) ---------------- *)
@@ -140,7 +159,12 @@ Inductive case :=
 | KConvolve (m : mask) (K : qm) (img bimg : qv) (out : qv)
 | KNoBlur (m : mask) (K : qm) (img : qv) (out : qv)
 | KMatrix (m : mask) (K : qm) (M : qm) (out : qm)
-| KWhole (m : mask) (native : qm) (K : qm) (out : res qv).            (* Kernel2D.convolved_array(_with_mask)_from *)
+| KWhole (m : mask) (native : qm) (K : qm) (out : res qv)             (* Kernel2D.convolved_array(_with_mask)_from *)
+(* SimulatorImaging(background_sky_level=sky, subtract_background_sky, normalize_psf, noise off).via_image_from(image):
+   out = (dataset.psf native, dataset.data slim) *)
+| KSim (sky : Q) (subtract normalize : bool) (image : qm) (K : qm) (out : res (qm * qv))
+(* Imaging.apply_mask(m) of a simulated dataset whose data (slim, whole frame of [image]) is [data]: out = masked data slim *)
+| KMasked (image : qm) (data : qv) (m : mask) (out : qv).
 
 Definition with_conv {B} (m : mask) (K : qm) (d : B) (f : @convolver QOps -> B) : B :=
   match @convolver_init QOps m K with Ok c => f c | Raise _ => d end.
@@ -156,6 +180,12 @@ Definition agree (k : case) : bool :=
   | KNoBlur m K img out => with_conv m K false (fun c => qv_eqb (convolve_no_blurring c img) out)
   | KMatrix m K M out => with_conv m K false (fun c => qm_eqb (convolve_matrix c M) out)
   | KWhole m native K out => res_eqb qv_eqb (@convolved_array_checked QOps m native K) out
+  | KSim sky subtract normalize image K out =>
+      res_eqb (prod_eqb qm_eqb qv_eqb)
+        (match @simulate QOps sky subtract normalize image K with
+         | Ok d => Ok (@sim_psf QOps normalize K, d)
+         | Raise e => Raise e end) out
+  | KMasked image data m out => qv_eqb (@masked_data QOps _ image data m) out
   end.
 
 (* spec verdict on the implementation's output; uses conv_full / footprints only, never the frames *)
@@ -195,6 +225,20 @@ Definition spec_ok (k : case) : bool :=
            | Ok o => qv_eqb o (map (@conv_full QOps (@img_fun QOps native) K) (unmasked m))
            | Raise _ => false
            end
+  | KSim sky subtract normalize image K out =>
+      if negb (odd_kernel K) then res_eqb (fun _ _ => true) out (Raise KernelException)
+      else match out with
+           | Ok (psf, d) =>
+               let s := fold_right Qplus 0%Q (concat K) in
+               let P := if normalize then map (map (fun v => (v / s)%Q)) K else K in
+               qm_eqb psf P &&
+               qv_eqb d (map (fun p => (@conv_full QOps (@img_fun QOps image) P p + (if subtract then 0 else sky))%Q)
+                             (all_px image))
+           | Raise _ => false
+           end
+  | KMasked image data m out =>
+      (* the value of the whole-frame data at the k-th unmasked pixel (row-major position y*W + x) *)
+      qv_eqb out (map (fun p => nth (Z.to_nat (fst p * cols image + snd p)) data 0%Q) (unmasked m))
   end.
 
 Definition check (k : case) : nat := verdict (agree k) (spec_ok k).
